@@ -302,6 +302,7 @@ def iter_setup(eng):
         return ''
     stubs.STUBS['LineSource'] = {'methods': {'readline': readline}, 'props': {}, 'setters': {}}
     eng.spec_env['LINE'] = Builtin('LINE', lambda e, a, k, n: line(a[0], a[1]))
+    eng.spec_env['FIRST_LINES'] = [[line(h, i) for i in range(4)] for h in range(2)]      # for the replay: the model's first record
 
 
 def iterator_self(eng, name):
@@ -350,8 +351,14 @@ def fastq_next_replay(inputs, clause):
         files, want = [], []
         for h in range(2):
             lines = []
+            first = (g.get('FIRST_LINES') or [[None] * 4] * 2)[h]
             for i in range(nl[h]):
-                lines.append(['@read%d/%d' % (i // 4, h + 1), 'ACGTACGTAC', '+', 'IIIIIHHHH#'][i % 4])
+                dflt = ['@read%d/%d' % (i // 4, h + 1), 'ACGTACGTAC', '+', 'IIIIIHHHH#'][i % 4]
+                if i < 4 and isinstance(first[i], str):
+                    # the model's first record: the lengths of its lines (an empty read, an empty header ...), printable content
+                    n_ = min(len(first[i]), 60)
+                    dflt = (['@', 'A', '+', 'I'][i] * n_) if i != 0 else ('@' + 'h' * (n_ - 1) if n_ else '')
+                lines.append(dflt)
             end = '\r\n' if crlf[h] else '\n'
             text = end.join(lines) + (end if (lines and final[h]) else '')
             p = os.path.join(d, 'R%d.fastq' % (h + 1))
@@ -366,8 +373,9 @@ def fastq_next_replay(inputs, clause):
             obs = {'outcome': 'return', 'value': got, 'expected': want, 'lines': nl, 'final_newline': final, 'crlf': crlf}
             ok = all(len(w) == 4 for w in want) and got == want
         except StopIteration:
-            obs = {'outcome': 'raise', 'value': ['StopIteration'], 'lines': nl}
-            ok = any(n < 4 for n in nl)
+            obs = {'outcome': 'raise', 'value': ['StopIteration'], 'lines': nl, 'first_records': want}
+            # the iteration may stop only when some file has no further (non-empty) header line
+            ok = any(n < 1 or len(w[0]) == 0 for n, w in zip(nl, want))
         finally:
             for hd in it.handles:
                 hd.close()
